@@ -83,3 +83,14 @@ struct ScriptObs {
   CaseObs c;
 };
 ScriptObs runScript(const ScriptSpec& s);
+
+// Scripted shutdown: a worker is parked between its failed central-queue dequeue and its clearing of the
+// non-empty hint while the last running task force-queues a child after the destructor's first drain;
+// the child can then only be run by the destructor's drain after the join.
+struct DtorHintObs {
+  bool reached = true;
+  std::string why;
+  bool kidRanInDtor = false;
+  CaseObs c;
+};
+DtorHintObs runDtorHintScript(int N);
